@@ -23,7 +23,7 @@ package jd
 //@   loop "range after" invariant forallInt(0, idx, func(q int) bool { return specCtx(after[q], l, int(i)+q) })
 
 //@ contract dispatch
-//@   ensures ret0 == specDispatch(n, options)
+//@   ensures same(ret0, specDispatch(n, options))
 //@   loop "range options" invariant specArrayKind(options) == specArrayKind(options[idx:])
 //@   carries C04 C05
 
@@ -114,13 +114,13 @@ package jd
 //@ contract JsonNode.diff
 //@   requires validNode(self) && validNode(n) && validPath(p) && validStrategy(strategy)
 //@   ensures validDiff(ret0)
-//@   ensures (len(ret0) == 0) == specEq(self, n, options)
+//@   ensures [C05] (len(ret0) == 0) == specEq(self, n, options)
 //@   carries C13 C05 C07 C01
 
 //@ contract JsonNode.Diff
 //@   requires validNode(self) && validNode(n)
 //@   ensures validDiff(ret0)
-//@   ensures (len(ret0) == 0) == specEq(self, n, options)
+//@   ensures [C05] (len(ret0) == 0) == specEq(self, n, options)
 //@   carries C13 C05 C07 C01
 
 //@ contract JsonNode.hashCode
@@ -132,9 +132,9 @@ package jd
 //@   carries C13
 
 //@ contract diff
-//@   requires validNode(a) && validNode(b) && validPath(p) && validStrategy(strategy)
+//@   requires validNode(a) && validNode(b) && validPath(p) && validStrategy(strategy) && !specIsContainer(a)
 //@   ensures validDiff(ret0)
-//@   ensures (len(ret0) == 0) == specEq(a, b, options)
+//@   ensures [C05] (len(ret0) == 0) == specEq(a, b, options)
 //@   carries C13 C05 C07 C01
 
 //@ contract nodeList
@@ -157,8 +157,8 @@ package jd
 //@ contract (Path).clone
 //@   ensures len(ret0) == len(p)
 //@   ensures validPath(p) ==> validPath(ret0)
-//@   ensures forallInt(0, len(p), func(i int) bool { return ret0[i] == p[i] })
-//@   loop "range p" invariant forallInt(0, idx, func(i int) bool { return p2[i] == p[i] })
+//@   ensures forallInt(0, len(p), func(i int) bool { return samePE(ret0[i], p[i]) })
+//@   loop "range p" invariant forallInt(0, idx, func(i int) bool { return samePE(p2[i], p[i]) })
 //@   carries C13 C01 C07
 
 // Spec functions kept as uninterpreted symbols (unfolded on demand) to keep queries small.
@@ -180,7 +180,16 @@ package jd
 //@ contract verifDiff
 //@   bounded
 //@   requires validNode(a) && validNode(b) && verifDomain(a, b, options)
-//@   ensures_bounded verifPatchGives(a, ret0, b, options)
-//@   ensures_bounded (len(ret0) == 0) == a.Equals(b, options...)
-//@   ensures_bounded (len(ret0) == 0) == specEq(a, b, options)
+//@   ensures_bounded [C01] verifPatchGives(a, ret0, b, options)
+//@   ensures_bounded [C05] (len(ret0) == 0) == a.Equals(b, options...)
+//@   ensures_bounded [C05] (len(ret0) == 0) == specEq(a, b, options)
 //@   carries C01 C05
+
+// List, set and multiset diffs match elements by hash code (LCS / hash maps); their agreement
+// with specEq rests on the hash function and is evaluated on bounded universes only.
+//@ contract (jsonList).diff
+//@   bounded
+//@ contract (jsonSet).diff
+//@   bounded
+//@ contract (jsonMultiset).diff
+//@   bounded
